@@ -491,7 +491,7 @@ fn c14_dispatch(case: &SaveCase) -> Result<SaveFacts, Violation> {
 }
 
 fn c14_run(ctx: &ShardCtx) -> ShardResult {
-    let cases = ctx.tier.pick(1000, 30_000);
+    let cases = ctx.tier.pick(10000, 30_000);
     run_proptest(ctx, save_case(), cases, 14, |c, stats| {
         let f = c14_dispatch(c)?;
         stats.label(if c.uuid { "marker.uuid" } else { "marker.simple" });
@@ -968,7 +968,7 @@ fn merge_case(max_ops: usize) -> impl Strategy<Value = MergeCase> {
 }
 
 fn c15_run(ctx: &ShardCtx) -> ShardResult {
-    let cases = ctx.tier.pick(1200, 30_000);
+    let cases = ctx.tier.pick(10000, 30_000);
     let max_ops = ctx.tier.pick(40, 150);
     run_proptest(ctx, merge_case(max_ops), cases, 15, |c, stats| {
         let f = c15_dispatch(c)?;
